@@ -336,7 +336,7 @@ def cases(tier, seed):
   add('case_reduce_prod', shape=[2, 3, 2], axis=-2, timeout=200)
   add('case_kfl', ls=2, dims=2, terms=1)
   add('case_kfl', ls=2, dims=2, terms=2, required=False, timeout=60)
-  add('case_kfl', ls=3, dims=2, terms=1, required=False, timeout=60)
+  add('case_kfl', ls=3, dims=2, terms=1, required=False, timeout=25)
   add('case_kernel_grad', layer='lattice', sizes=[2, 2], units=1)
   add('case_kernel_grad', layer='lattice', sizes=[3, 2], units=2, unit=1)
   add('case_kernel_grad', layer='lattice', sizes=[2, 2, 2], units=1)
